@@ -449,7 +449,22 @@ def run(ctx: Ctx) -> dict:
                 turns = [[first, k], [other, 10 ** 6], [first, 10 ** 6]]
                 ljobs.append({"mode": "lines", "calls": [callsl[a], callsl[b]], "turns": turns})
                 lmeta.append(((a, b), turns))
-    lres = thr_jobs(ctx, ljobs, "lines")
+    # in batches: once a batch shows a call that differs from its solo outcome the remaining schedules add
+    # nothing to the verdict (and a tree that makes every cold start expensive would take very long)
+    order = list(range(len(ljobs)))
+    random.Random(ctx.seed + 141).shuffle(order)
+    lres_by = {}
+    nb = 8
+    for bn in range(nb):
+        part = order[bn::nb]
+        for i, r in zip(part, thr_jobs(ctx, [ljobs[i] for i in part], f"lines{bn}")):
+            lres_by[i] = r
+        if any(not r["stuck"] and [canon(o) for o in r["outs"]] != [solo_out[lmeta[i][0][0]], solo_out[lmeta[i][0][1]]]
+               for i, r in lres_by.items()):
+            break
+    done = sorted(lres_by)
+    lmeta = [lmeta[i] for i in done]
+    lres = [lres_by[i] for i in done]
     line_runs = sum(1 for r in lres if not r["stuck"])
     # the verdict on every line-level run is the specification's too (JudgeThreads!RunOutcome; these runs
     # carry no access log, so it is the clause "every call gives its solo outcome" that is evaluated)
